@@ -1705,13 +1705,18 @@ func (s *c09State) contextKindsTogether() {
 // value derived from the variable's current value (a conversion, a wrap) or from recover().
 func (c *Ctx) c09DeferredCleanupKeepsTheError() {
 	c.rule("A21", "a deferred function literal stores into the enclosing function's error variable only where that variable is nil, or a value derived from its current value (or from recover()): the failure of a clean-up never replaces the error already being returned — a cancellation stays a cancellation", 2)
+	c.deferredCleanupKeepsTheError("A21", nil, "the deferred function overwrites the error the function is returning with the outcome of its clean-up: when the context ends while the operation runs and the clean-up fails too (the device is full when the archive is finalised), the caller is told about the device and not that the operation was cancelled / timed out")
+}
+
+// deferredCleanupKeepsTheError is the rule A21 for the functions `only` selects (nil: all of the module), reported as `rule`.
+func (c *Ctx) deferredCleanupKeepsTheError(rule string, only func(*ssa.Function) bool, consequence string) {
 	for _, sp := range c.SSAPkgs {
 		if !strings.HasPrefix(sp.Pkg.Path(), modPath) {
 			continue
 		}
 		rel := shortPkg(sp.Pkg.Path())
 		for _, f := range c.srcFuncs(rel) {
-			if f.Blocks == nil {
+			if f.Blocks == nil || (only != nil && !only(f)) {
 				continue
 			}
 			allInstrs(f, func(in ssa.Instruction) {
@@ -1785,8 +1790,7 @@ func (c *Ctx) c09DeferredCleanupKeepsTheError() {
 							guarded = true
 						}
 					}
-					c.check(derived || guarded, "A21", key, c.ipos(st), "the store is made where the variable is nil / stores a value derived from its current value",
-						"the deferred function overwrites the error the function is returning with the outcome of its clean-up: when the context ends while the operation runs and the clean-up fails too (the device is full when the archive is finalised), the caller is told about the device and not that the operation was cancelled / timed out")
+					c.check(derived || guarded, rule, key, c.ipos(st), "the store is made where the variable is nil / stores a value derived from its current value", consequence)
 				})
 			})
 		}
